@@ -88,3 +88,19 @@ Theorem C01_locus_line_roundtrip_partial : forall reg g out, gb_show reg g = Ok 
       (12, f_locus f, locus_length g, f_molecule f, topology_show (f_topology f), f_division f, f_date f).
 Proof. exact locus_roundtrip. Qed.
 Print Assumptions C01_locus_line_roundtrip_partial.
+
+(* the key line of a feature: whatever the table writer puts on the first line
+   of a feature (prefix, key padded to the location column, the location) is
+   read back by featureKeylineParser as the same key and the same location,
+   for every printable location (C06) and every key of feature-key characters
+   narrower than the location column; what follows it in the table is a
+   newline or nothing. *)
+From GTS Require Import FastaProofs LocRT KeylineRT.
+Theorem C01_feature_keyline_roundtrip_partial : forall r pre depth f post,
+  featkey (Seq.fkey f) -> zlen pre + zlen (Seq.fkey f) < depth -> printable (Seq.floc f) ->
+  (exists q, feature_show r pre depth f = feature_head pre depth f ++ q /\ (q = [] \/ exists t, q = 10 :: t)) /\
+  forall o e a (fr : frame) k, exists o' e' a',
+    keyline_parser pre depth (mkst (feature_head pre depth f ++ 10 :: post) o e a (fr :: k)) =
+    (Ok (Seq.fkey f, Seq.floc f), mkst post o' e' a' (fr :: k)).
+Proof. exact feature_keyline_roundtrip. Qed.
+Print Assumptions C01_feature_keyline_roundtrip_partial.
